@@ -498,15 +498,22 @@ func supervise(out string, cases []*Case, caseTimeout int, record func(int, *Cas
 		if next >= len(cases) && started < 0 {
 			break
 		}
-		if started >= 0 && !hung && killedFromOutside(werr, tail.Head()) && !retried[started] {
-			// not a verdict about the implementation: run the case once more in a fresh worker
-			fmt.Fprintf(os.Stderr, "hx: worker ended by an outside signal while executing case %d (%v); retrying the case once\n", started, werr)
+		if started >= 0 && !hung && !retried[started] {
+			// The death of the worker process is attributed to the case only if it happens again when the case is executed in a
+			// fresh worker: a signal from outside (an operator's pkill, a tool's time limit), a goroutine left over from an earlier
+			// case, or resource exhaustion of a long-lived process are not verdicts about this case, while a panic or fatal error
+			// the case provokes is reproduced by the retry (engines force their schedules) and reported then.
+			fmt.Fprintf(os.Stderr, "hx: worker died while executing case %d (%v, outside signal: %v); retrying the case once. Its stderr began with:\n%s\n",
+				started, werr, killedFromOutside(werr, tail.Head()), firstLines(tail.Head(), 25))
 			retried[started] = true
 			next = started
 			continue
 		}
 		if started >= 0 {
 			failedBefore = true
+			if !hung {
+				fmt.Fprintf(os.Stderr, "hx: worker died while executing case %d (%v); its stderr began with:\n%s\n", started, werr, firstLines(tail.Head(), 25))
+			}
 			what := fmt.Sprintf("the process running the implementation died while executing this case (%v): %s", werr, lastLines(tail.Head()+"\n"+tail.String(), 12))
 			if hung {
 				what = fmt.Sprintf("no progress for %d s while executing this case (hang / deadlock / livelock); worker killed", caseTimeout)
@@ -525,6 +532,14 @@ func supervise(out string, cases []*Case, caseTimeout int, record func(int, *Cas
 			}
 		}
 	}
+}
+
+func firstLines(s string, n int) string {
+	ls := strings.Split(strings.TrimSpace(s), "\n")
+	if len(ls) > n {
+		ls = ls[:n]
+	}
+	return strings.Join(ls, "\n")
 }
 
 func lastLines(s string, n int) string {
